@@ -218,10 +218,14 @@ impl Types {
             }
             MemberKind::Int(n) => {
                 let value = permissive::deserialize::<I256, _>(value)?;
-                ensure!(
-                    value.unsigned_abs().leading_zeros() + n >= 256,
-                    "value {value:#x} overflows int{n}",
-                );
+                // NOTE: A two's complement `intN` value has at least `256 - N + 1`
+                // leading sign bits, i.e. it is in `[-2^(N-1), 2^(N-1))`.
+                let sign_bits = if value.is_negative() {
+                    value.leading_ones()
+                } else {
+                    value.leading_zeros()
+                };
+                ensure!(sign_bits + n > 256, "value {value:#x} overflows int{n}");
                 value.to_be_bytes()
             }
             MemberKind::Bool => match bool::deserialize(value)? {
